@@ -90,6 +90,22 @@ func dstr(kind string, s string) []byte {
 			b = append(b, byte(c>>8), byte(c))
 		}
 		return tlv(0x1e, b)
+	case "universal":
+		var b []byte
+		for _, r := range s {
+			b = append(b, byte(r>>24), byte(r>>16), byte(r>>8), byte(r))
+		}
+		return tlv(0x1c, b)
+	case "teletex-latin1":
+		var b []byte
+		for _, r := range s {
+			if r < 256 {
+				b = append(b, byte(r))
+			} else {
+				b = append(b, '?')
+			}
+		}
+		return tlv(0x14, b)
 	}
 	return tlv(0x0c, []byte(s))
 }
@@ -130,6 +146,7 @@ var synthPolicies = []string{
 
 var synthTexts = []string{
 	"Example Org", "Org &amp; Co", "Tëst Ünïcode", " leading space", "trailing space ", "", "US", "us", "USA", "DE", "XX", "12345", "Private Organization", "Government Entity",
+	"Caf\xe9 M\xfcnchen", "\xc2", "abc\xffdef", "株式会社 例", "Ελληνικά Α.Ε.", "nul\x00byte", "tab\there", "line\nbreak", "del\x7f", "esc\x1b[31m", "Z\u00fcrich", "\u00a0nbsp", "emoji \U0001F600",
 	"O'Reilly, Inc.", strings.Repeat("long", 40), "NTRUS-123456789", "VATDE-123456789", "a@example.com", "John", "Doe", "Ünïcödé ✓", "<b>bold</b>", "Some-State", "Berlin", "-", ".", "N/A", "*",
 }
 
@@ -142,7 +159,27 @@ func synthStringKind(g *RNG, attr string) string {
 	case "serial":
 		return pick(g, []string{"printable", "printable", "utf8"})
 	}
-	return pick(g, []string{"utf8", "utf8", "printable", "printable", "bmp", "teletex", "ia5"})
+	return pick(g, []string{"utf8", "utf8", "utf8", "printable", "printable", "bmp", "teletex", "teletex-latin1", "universal", "ia5"})
+}
+
+// synthForceWeakKey makes every synthetic certificate carry a Fermat-weak RSA key (set around a
+// draw by generators that aim at the Fermat lint's option).
+var synthForceWeakKey bool
+
+func synthWeakKeyCert(g *RNG, idx []string) *ObjSpec {
+	synthForceWeakKey = true
+	defer func() { synthForceWeakKey = false }()
+	return synthCert(g, idx)
+}
+
+// weakSPKI is an RSA SubjectPublicKeyInfo whose modulus comes from the pool of Fermat-weak
+// moduli: an object on which the round count configured for the Fermat lint decides the verdict.
+func weakSPKI(g *RNG) []byte {
+	e := fermatPool[g.Intn(len(fermatPool))]
+	n, _ := new(big.Int).SetString(e.N, 16)
+	exp := pick(g, []int64{65537, 65537, 65537, 3, 17})
+	key := dseq(dint(n), dint(big.NewInt(exp)))
+	return dseq(dseq(doid("1.2.840.113549.1.1.1"), []byte{0x05, 0x00}), dbits(key, 0))
 }
 
 func synthName(g *RNG, hosts []string, rich bool) []byte {
@@ -506,8 +543,12 @@ func synthCert(g *RNG, idx []string) *ObjSpec {
 			}
 			exts = out
 		}
+		spki := d.spki
+		if weak := g.Chance(0.1); weak || synthForceWeakKey {
+			spki = weakSPKI(g)
+		}
 		parts := [][]byte{ctxCons(0, dint(big.NewInt(2))), dint(serial), d.sigAlg, issuer,
-			dseq(dtime(nb, g.Chance(0.05)), dtime(na, g.Chance(0.05))), subject, d.spki}
+			dseq(dtime(nb, g.Chance(0.05)), dtime(na, g.Chance(0.05))), subject, spki}
 		if len(exts) > 0 {
 			parts = append(parts, ctxCons(3, dseq(exts...)))
 		}
